@@ -129,6 +129,20 @@ let oracle_c08_case script trace =
                    | [t; o] -> (z_of_int (int_of_string t), z_of_int (int_of_string o)) | _ -> failwith "tab")
                  (split_c (str a "tab" "-") ','));
       next li (fun l -> if l <> "tp_tz ok" then fail (Printf.sprintf "step=%d tz-table %s" li l))
+    | Some ("tp_mk", a) ->
+      (* the only thing the theorems ask of mktime (tp_good): a local time that exists exactly once is mapped to its
+         instant; inside a skipped / repeated hour nothing is claimed (compared with the model only) *)
+      let (base, tab) = !zone in
+      let ls = List.map (fun s -> z_of_int (int_of_string s)) (split_c (str a "l" "-") ',') in
+      next li (fun l ->
+        match tok_val (toks_of l) "r" with
+        | None -> fail (Printf.sprintf "step=%d unexpected-line %s" li l)
+        | Some r ->
+          let rs = List.map int_of_string (split_c r ',') in
+          if List.length rs <> List.length ls then fail (Printf.sprintf "step=%d op=tp_mk wrong-number-of-answers" li)
+          else List.iter2 (fun lz r ->
+              if tp_tab_good_b base tab lz && int_of_z (tp_tab_mk base tab lz) <> r then
+                fail (Printf.sprintf "step=%d op=tp_mk mktime-of-an-exactly-once-local-time l=%s got=%d" li (zs lz) r)) ls rs)
     | Some ("tp_parse", a) ->
       next li (fun l ->
         let want = if tp_ast_nth_zero (str a "ast" "") then "rejected" else "ok" in
@@ -197,6 +211,11 @@ let () =
                     | [t; o] -> (z_of_int (int_of_string t), z_of_int (int_of_string o)) | _ -> failwith "tab")
                   (split_c (str a "tab" "-") ','));
     emit "tp_tz ok");
+  register_op "tp_mk" (fun a ->
+    let (base, tab) = !tp_zone in
+    let ls = split_c (str a "l" "-") ',' in
+    emit ("tp_mk r=" ^ (if ls = [] then "-" else
+      String.concat "," (List.map (fun s -> zs (tp_tab_mk base tab (z_of_int (int_of_string s)))) ls))));
   register_op "tp_parse" (fun a ->
     emit ("tp_parse res=" ^ (if tp_ast_nth_zero (str a "ast" "") then "rejected" else "ok")));
   register_op "tp_new" (fun a -> Hashtbl.replace tp_tab (str a "name" "") (tp_new_fix a));
